@@ -704,6 +704,10 @@ def run(chk):
     try:
         sfx = compose_suffix()
         chk.cov["generated_files"]["compose value_suffix (ast of cdata.py RecordMap.compose / example_input)"] = {"status": "ok", "value": sfx}
+        if sfx != "":
+            # C17_compose_sound_* are theorems about compose with value_suffix "": they no longer speak about this source
+            chk.proof_break("C17_compose_sound_* are proved for compose() calling example_input(value_suffix=\"\"); the source passes %r" % sfx,
+                            "value_suffix read from data_algebra/cdata.py RecordMap.compose: %r" % sfx)
     except Exception as e:
         sfx = " value"
         chk.proof_break("translator: UNSUPPORTED data_algebra/cdata.py RecordMap.compose: %s" % e, str(e))
